@@ -245,7 +245,10 @@ def main(argv):
             unresolved.append(ob)
 
     # ---------------- report
-    n_ob = len([o for o in obligations if o["status"] != "error"])
+    # obligations matched by an OPEN known finding are reported (KNOWN-FINDING line, coverage.known_finding_obligations) and
+    # are not part of the discharged / generated count: they are recorded refutations, not proof obligations of the claim
+    kf_names = {ob.get("name") for kf, ob in known_hits if isinstance(ob, dict) and not str(ob.get("name", "")).startswith("bounded:")}
+    n_ob = len([o for o in obligations if o["status"] != "error" and o.get("name") not in kf_names])
     n_dis = len([o for o in obligations if o["status"] == "discharged"])
     seen_kf = set()
     for kf, ob in known_hits:
@@ -278,11 +281,12 @@ def main(argv):
         functions_under_contract=sorted(functions),
         inlined_callees=sorted(inlined - functions), callees_via_contract=sorted(via),
         discharged_by=by_solver, solver_seconds=round(solver_seconds, 2),
-        not_discharged=[dict(obligation=o["name"], status=o["status"], reason=str(o.get("detail"))[:200], fallback=o.get("fallback")) for o in obligations if o["status"] != "discharged"][:60],
+        not_discharged=[dict(obligation=o["name"], status=o["status"], reason=str(o.get("detail"))[:200], fallback=o.get("fallback")) for o in obligations if o["status"] != "discharged" and o.get("name") not in kf_names][:60],
         samples=samples,
         explanation=cfg.get("explanation", ""),
         extraction_drops=P.EXTRACTION_DROPS,
         known_findings_reported=sorted(seen_kf),
+        known_finding_obligations=sorted(n for n in kf_names if n),
         function_level_bounded=[dict(contract=e["contract"], admitted=e["enum"].get("admitted"), distinct=e["enum"].get("distinct"), failures=len(e["enum"].get("failures", []))) for e in enum_runs],
     )
     if bounded:
